@@ -629,3 +629,41 @@ fn u6_dua_self_entry_then_peer() {
     kani::assert(x.inner().is_uninit() && x.inner().weak() == wx - 1, "U6.dua.ends_gone_weak_minus_one");
     core::mem::forget((x, p));
 }
+
+/// three objects (thorough tier): the dying x adopts p (twice) and is adopted by q (once, stale record):
+/// both peers lose exactly their records of x, their other records and counters stay
+#[kani::proof]
+#[kani::unwind(6)]
+fn u6_dua_two_peers() {
+    let x = Rc::new(Probe(1));
+    let p = Rc::new(Probe(2));
+    let q = Rc::new(Probe(3));
+    let (wx, sp, wp, sq, wq): (usize, usize, usize, usize, usize) = (kani::any(), kani::any(), kani::any(), kani::any(), kani::any());
+    kani::assume(wx >= 2);
+    set_counts(&x, 0, wx);
+    set_counts(&p, sp, wp);
+    set_counts(&q, sq, wq);
+    install(&x, fwd(&p), 2);
+    install(&p, bwd(&x), 2);
+    install(&q, fwd(&x), 1);
+    install(&x, bwd(&q), 1);
+    // an adoption between the peers that does not involve x
+    install(&q, fwd(&p), 1);
+    install(&p, bwd(&q), 1);
+    tag_table(&x, 1);
+    unsafe {
+        REG = x.ptr.as_ptr();
+        REG_PEER = p.ptr.as_ptr();
+        EXPECT_WEAK = wx;
+    }
+    let mut h = alias(&x);
+    unsafe { drop_unreachable_with_adoptions(&mut h) };
+    core::mem::forget(h);
+    kani::assert(unsafe { PROBE_DROPS } == 1, "U6.dua.value_destroyed_exactly_once");
+    kani::assert(cnt(&p, bwd(&x)) == 0 && cnt(&p, fwd(&x)) == 0 && cnt(&q, fwd(&x)) == 0 && cnt(&q, bwd(&x)) == 0, "U6.dua.peer_loses_every_record_of_dying_object");
+    kani::assert(cnt(&q, fwd(&p)) == 1 && cnt(&p, bwd(&q)) == 1 && table_len(&p) == 1 && table_len(&q) == 1, "U6.dua.peer_other_records_untouched");
+    kani::assert(p.inner().strong() == sp && p.inner().weak() == wp && q.inner().strong() == sq && q.inner().weak() == wq, "U6.dua.peer_counters_untouched");
+    kani::assert(borrow_free(&p) && borrow_free(&q), "U6.dua.no_borrow_left_on_peer");
+    kani::assert(x.inner().is_uninit() && x.inner().weak() == wx - 1, "U6.dua.ends_gone_weak_minus_one");
+    core::mem::forget((x, p, q));
+}
